@@ -39,6 +39,11 @@ def cluster_mix(each, **params):
     return [J("cluster", c, each, per_process=6, **params) for c in ("s2", "s3", "s4")]
 
 
+def byz_mix(each, **params):
+    """Cluster runs with a Byzantine adversary (the always-on monitors judge every honest node)."""
+    return [J("byz", c, each, per_process=4, **params) for c in ("s5", "s6", "s7", "s8")]
+
+
 C06_PARAMS = dict(timeout_ms=1000, hi_ms=50, sync_retry_ms=1000, duration_ms=200000)
 
 PLANS = {
@@ -46,22 +51,22 @@ PLANS = {
         "level": "exploration",
         "rule": "cluster runs (real nodes on the simulated network, virtual time) of classes s2 crash / s3 async-then-stable / s4 partition-heal; a run is non-trivial if some commit delivered >= 2 blocks, the delivered sequence has a round gap, or the first delivered block has round > 1; distinct = distinct fingerprints of the per-node Core event sequences",
         "assumptions": ["simulated transport preserves per-connection FIFO byte streams", "commit channel read by the harness task is the application boundary"],
-        "quick": cluster_mix(64) + puppet_mix(320, 12),
-        "thorough": cluster_mix(1500) + puppet_mix(20000, 400),
+        "quick": cluster_mix(48) + puppet_mix(320, 12) + byz_mix(12),
+        "thorough": cluster_mix(1500) + puppet_mix(20000, 400) + byz_mix(500),
     },
     "C03": {
         "level": "exploration",
         "rule": "puppet-mode scripts (one real node, harness holds the other n-1 keys: random scripts over {extend, view change, timer expiry, equivocation, unsafe extension, withheld parent, missing payload, invalid variant, replay} and the directed catalogue d01..d18) plus cluster runs; non-trivial = the node was offered a second proposal after voting, a proposal after its own timeout, an unsafe extension, or voted through the TC branch; distinct = distinct Core-event fingerprints",
         "assumptions": ["hook events Vote/Timeout are emitted synchronously inside Core (program order)", "cross-checked against validly signed votes on the wire and the signature-service tap"],
-        "quick": puppet_mix(640, 24) + cluster_mix(32),
-        "thorough": puppet_mix(40000, 800) + cluster_mix(1000),
+        "quick": puppet_mix(640, 24) + cluster_mix(24) + byz_mix(12),
+        "thorough": puppet_mix(40000, 800) + cluster_mix(1000) + byz_mix(500),
     },
     "C05": {
         "level": "exploration",
         "rule": "same workloads as C03; oracle: every commit of the real node is justified by a consecutive-round pair b0<-b1 among blocks delivered to it with a valid QC for b1 among certificates delivered to / assembled by it; non-trivial = the node was shown a certified 2-chain with a round gap, or committed a block as an ancestor; distinct = distinct Core-event fingerprints",
         "assumptions": ["puppet histories keep all certified consecutive 2-chains on one chain (generator-enforced)"],
-        "quick": puppet_mix(480, 16) + cluster_mix(48),
-        "thorough": puppet_mix(30000, 600) + cluster_mix(1200),
+        "quick": puppet_mix(480, 16) + cluster_mix(32) + byz_mix(16),
+        "thorough": puppet_mix(30000, 600) + cluster_mix(1200) + byz_mix(600),
     },
     "C08": {
         "level": "exploration",
@@ -74,8 +79,8 @@ PLANS = {
         "level": "exploration",
         "rule": "same workloads as C03; oracle over Core's round-advance and timeout events against certificates delivered to / assembled by the node; non-trivial = a round jump > 1 or an advance justified by a TC only",
         "assumptions": ["a certificate counts as held once the frame carrying it became readable by the node"],
-        "quick": puppet_mix(480, 16) + cluster_mix(48),
-        "thorough": puppet_mix(30000, 600) + cluster_mix(1200),
+        "quick": puppet_mix(480, 16) + cluster_mix(32) + byz_mix(12),
+        "thorough": puppet_mix(30000, 600) + cluster_mix(1200) + byz_mix(600),
     },
     "C06": {
         "level": "exploration",
@@ -125,14 +130,14 @@ PLANS.update({
         "level": "exploration",
         "rule": "(1) leader function of committees of 1..20 authorities built in permuted / duplicated insertion orders vs. the sorted-key round robin for rounds 0..3n, random u64 and the top of the u64 range, and once-per-window rotation; (2) always-on at every real node in puppet and cluster runs: each vote is for a block authored and validly signed by the round's leader, and no honest authority signs two proposals for one round (wire + signature-service tap), including directed races of QC/TC/timeouts at a collecting leader (d15); component case class = committee size, scenario runs are distinct by Core-event fingerprint",
         "assumptions": ["usize is 64 bits (round as usize does not truncate)"],
-        "quick": [J("c09", "x", 16, per_process=1)] + [J("puppet", "d15", 192, per_process=8), J("puppet", "rand", 320, per_process=10), J("puppet", "d09", 48, per_process=8)] + cluster_mix(32),
+        "quick": [J("c09", "x", 16, per_process=1)] + [J("puppet", "d15", 192, per_process=8), J("puppet", "rand", 320, per_process=10), J("puppet", "d09", 48, per_process=8)] + cluster_mix(24) + byz_mix(12),
         "thorough": [J("c09", "x", 128, per_process=2, committees=300)] + [J("puppet", "d15", 8000, per_process=20), J("puppet", "rand", 20000, per_process=20), J("puppet", "d09", 2000, per_process=20)] + cluster_mix(1000),
     },
     "C19": {
         "level": "exploration",
         "rule": "(1) Aggregator vs. reference model on random streams of validly signed votes / timeouts (duplicates, several blocks per round, several rounds, cleanup interleaved, committees of 1..10 with equal / skewed / zero-stake / dominant stakes): a certificate is returned exactly at the first crossing of the quorum, with exactly the distinct authors so far, and verifies with the repository's verify and an independent ed25519 checker; (2) always-on at every real node: each assembled QC/TC is justified by valid votes/timeouts delivered to that node, crossed the quorum with its last contributor, is assembled once, and every certificate a node sends is valid and of known origin and accepted by the other real nodes",
         "assumptions": ["votes reaching the aggregator were verified by Core (stake > 0, signature)"],
-        "quick": [J("c19", "x", 32, per_process=2)] + [J("puppet", "d15", 160, per_process=8), J("puppet", "rand", 320, per_process=10)] + cluster_mix(32),
+        "quick": [J("c19", "x", 32, per_process=2)] + [J("puppet", "d15", 160, per_process=8), J("puppet", "rand", 320, per_process=10)] + cluster_mix(24) + byz_mix(12),
         "thorough": [J("c19", "x", 1024, per_process=8, streams=100)] + [J("puppet", "d15", 8000, per_process=20), J("puppet", "rand", 20000, per_process=20)] + cluster_mix(1000),
     },
     "C01": {
